@@ -302,6 +302,8 @@ func TestScripts(t *testing.T) {
 			tr = runRouterRT(t, line)
 		case strings.HasPrefix(line, "ort "):
 			tr = runOrderRT(t, line)
+		case strings.HasPrefix(line, "swrt "):
+			tr = runTunnelRT(t, line)
 		default:
 			tr = "bad-op"
 		}
